@@ -55,7 +55,7 @@ func handleSet(params internal.HandlerFuncParams) ([]byte, error) {
 		if !keyExists {
 			res = []byte("$-1\r\n")
 		} else {
-			res = []byte(fmt.Sprintf("+%v\r\n", params.GetValues(params.Context, []string{key})[key]))
+			res = []byte(fmt.Sprintf("$%d\r\n%v\r\n", len(fmt.Sprint(params.GetValues(params.Context, []string{key})[key])), params.GetValues(params.Context, []string{key})[key]))
 		}
 	}
 
@@ -122,7 +122,7 @@ func handleGet(params internal.HandlerFuncParams) ([]byte, error) {
 
 	value := params.GetValues(params.Context, []string{key})[key]
 
-	return []byte(fmt.Sprintf("+%v\r\n", value)), nil
+	return []byte(fmt.Sprintf("$%d\r\n%v\r\n", len(fmt.Sprint(value)), value)), nil
 }
 
 func handleMGet(params internal.HandlerFuncParams) ([]byte, error) {
@@ -694,7 +694,7 @@ func handleRandomkey(params internal.HandlerFuncParams) ([]byte, error) {
 
 	key := params.Randomkey(params.Context)
 
-	return []byte(fmt.Sprintf("+%v\r\n", key)), nil
+	return []byte(fmt.Sprintf("$%d\r\n%v\r\n", len(fmt.Sprint(key)), key)), nil
 }
 
 func handleGetdel(params internal.HandlerFuncParams) ([]byte, error) {
@@ -716,7 +716,7 @@ func handleGetdel(params internal.HandlerFuncParams) ([]byte, error) {
 		return nil, err
 	}
 
-	return []byte(fmt.Sprintf("+%v\r\n", value)), nil
+	return []byte(fmt.Sprintf("$%d\r\n%v\r\n", len(fmt.Sprint(value)), value)), nil
 }
 
 func handleGetex(params internal.HandlerFuncParams) ([]byte, error) {
@@ -740,7 +740,7 @@ func handleGetex(params internal.HandlerFuncParams) ([]byte, error) {
 
 	// Handle no expire options provided
 	if cmdLen == 2 {
-		return []byte(fmt.Sprintf("+%v\r\n", value)), nil
+		return []byte(fmt.Sprintf("$%d\r\n%v\r\n", len(fmt.Sprint(value)), value)), nil
 	}
 
 	// Handle persist
@@ -749,12 +749,12 @@ func handleGetex(params internal.HandlerFuncParams) ([]byte, error) {
 	if exCommand == "PERSIST" {
 		// getValues will update key access so no need here
 		params.SetExpiry(params.Context, exkey, time.Time{}, false)
-		return []byte(fmt.Sprintf("+%v\r\n", value)), nil
+		return []byte(fmt.Sprintf("$%d\r\n%v\r\n", len(fmt.Sprint(value)), value)), nil
 	}
 
 	// Handle exipre command passed but no time provided
 	if cmdLen == 3 {
-		return []byte(fmt.Sprintf("+%v\r\n", value)), nil
+		return []byte(fmt.Sprintf("$%d\r\n%v\r\n", len(fmt.Sprint(value)), value)), nil
 	}
 
 	// Extract time
@@ -782,7 +782,7 @@ func handleGetex(params internal.HandlerFuncParams) ([]byte, error) {
 
 	params.SetExpiry(params.Context, exkey, expireAt, false)
 
-	return []byte(fmt.Sprintf("+%v\r\n", value)), nil
+	return []byte(fmt.Sprintf("$%d\r\n%v\r\n", len(fmt.Sprint(value)), value)), nil
 
 }
 
